@@ -153,7 +153,8 @@ class C25(Check):
             "arrays; CSR jacobian against the coefficient matrix and the dense jacobian. Non-trivial: a history with a "
             "delete followed by an insert in the same row, or a from_coo input with >= 1 duplicate coordinate; distinct by case.")
     assumptions = ["the dense model is exact Gaussian-rational arithmetic in Python (pbt/linref.py)",
-                   "a library exception declines a sub-case; a crash/sanitizer report is a violation",
+                   "a library exception declines a sub-case; a crash/sanitizer report is a violation; every judged call is made inside the routine's precondition, so a SYMENGINE_ASSERT (e.g. the constructors' is_canonical()) is a violation",
+                   "known findings are excluded by construction only while their tag is active (Check.tag_active)",
                    "CSRMatrix members that throw NotImplementedError (add_matrix, mul_matrix, add_scalar, mul_scalar, submatrix, "
                    "det, inv, rank, factorisations) are only required not to crash",
                    "stored explicit zeros are tolerated except at the position just set to zero"]
